@@ -25,9 +25,13 @@ Definition res_obs_eqb (r : res (list item)) (o : cobs) : bool :=
   | _, _ => false
   end.
 
-Definition judge_mode (mode : str) (f : facts) (home cwd given : str) (obs : mobs) : verdict :=
+(* `fxs`: which repairs have landed in the tree under test (no_fixes = the pinned tree). A landed repair switches
+   the model to the patched lines AND removes the finding class from the guard, so that a recurrence of the defect
+   is a violation inside the guard instead of a KNOWN-FINDING. tie/props/c19.py derives fxs from the `fixed:` lines
+   of known_findings/C19.txt. *)
+Definition judge_mode (fxs : fixes) (mode : str) (f : facts) (home cwd given : str) (obs : mobs) : verdict :=
   let stdio := str_eqb given [45]%N in
-  let o := path_check mode stdio f in
+  let o := path_check_fx fxs mode stdio f in
   let so := spec_outcome mode stdio f in
   let names := path_names home cwd given in
   let vm := consistent f && is_abs cwd &&
@@ -46,28 +50,32 @@ Definition judge_mode (mode : str) (f : facts) (home cwd given : str) (obs : mob
             end in
   (* guard = hypothesis of C19_mode_exact; invalid modes, "-" and u/s modes are not in a finding class *)
   let k := if negb (check_mode mode) || stdio || has 117 mode || has 115 mode then 0%N
-           else finding_class (flags_of mode) f in
+           else finding_class_fx fxs (flags_of mode) f in
   (* inside a finding class only the listed defect (C19_findings_exact) or the right answer is expected;
      anything else is an unlisted class *)
   let k' := if negb (N.eqb k 0) && negb vm && negb vs then 99%N else k in
   {| v_model := vm; v_class := k'; v_spec := vs |}.
 
-Definition judge_cwd (files : list str) (cwd0 top : str) (body : list node)
+Definition judge_cwd (fxs : fixes) (files : list str) (cwd0 top : str) (body : list node)
                      (cwd1 : str) (cpd1 : option str) (obs : cobs) : verdict :=
   let s0 := {| cwd := cwd0; cpd := None |} in
-  let '(s1, r) := run_top files s0 top body in
+  let '(s1, r) := run_top fxs files s0 top body in
   let vm := is_abs cwd0 && str_eqb (cwd s1) cwd1 && option_eqb str_eqb (cpd s1) cpd1 && res_obs_eqb r obs in
   let vs := str_eqb cwd1 cwd0 && option_eqb str_eqb None cpd1
             && res_obs_eqb (spec_top files cwd0 top body) obs in
   (* guard = hypothesis of C19_relative_follows_config; class 4 = list-file-relative *)
-  let k := if tree_guard files cwd0 top body then 0%N else 4%N in
+  let k := if tree_guard files (fx_lf fxs) cwd0 top body then 0%N else 4%N in
   let k' := if negb (N.eqb k 0) && negb vm && negb vs then 99%N else k in
   {| v_model := vm; v_class := k'; v_spec := vs |}.
 
-Definition judge1 (c : case) : verdict :=
+Definition judge1_fx (fxs : fixes) (c : case) : verdict :=
   match c with
-  | CMode mode f home cwd given obs => judge_mode mode f home cwd given obs
-  | CCwd files cwd0 top body cwd1 cpd1 obs => judge_cwd files cwd0 top body cwd1 cpd1 obs
+  | CMode mode f home cwd given obs => judge_mode fxs mode f home cwd given obs
+  | CCwd files cwd0 top body cwd1 cpd1 obs => judge_cwd fxs files cwd0 top body cwd1 cpd1 obs
   end.
 
+Definition judge_fx (fxs : fixes) (cs : list case) := judge_all (judge1_fx fxs) cs.
+
+(* the pinned tree *)
+Definition judge1 : case -> verdict := judge1_fx no_fixes.
 Definition judge (cs : list case) := judge_all judge1 cs.
